@@ -1,0 +1,13 @@
+//go:build verif
+
+// Contracts for package dht, checked by /verif/govc (see /verif/DESIGN.md).
+// This file contains only comments: it adds no code to any build.
+
+package dht
+
+// The DHT is a C library behind cgo: its entry points are assumed (effects
+// on the Go heap: none).
+//@ func Ping
+//@   trusted
+//@ func Announce
+//@   trusted
